@@ -476,8 +476,8 @@ func rpmEvrCmp(a, b verObs) int {
 func genVersions(rng *rand.Rand, n int) []verTuple {
 	var out []verTuple
 	nums := []string{"0", "1", "2", "9", "10", "11", "123"}
-	preIds := []string{"rc1", "rc", "1", "0", "beta", "alpha-1", "x-y", "rc10", "rc9", "2a", "a2", "dev"}
-	metaIds := []string{"git", "5", "abc123", "b7", "2024", "001", "p1", "cvs2"}
+	preIds := []string{"rc1", "rc", "1", "0", "beta", "alpha-1", "x-y", "rc10", "rc9", "2a", "a2", "dev", "RC1", "Beta", "SNAPSHOT"}
+	metaIds := []string{"git", "5", "abc123", "b7", "2024", "001", "p1", "cvs2", "Build", "git-0a1b"}
 	ident := func(pool []string, k int) string {
 		var p []string
 		for i := 0; i < k; i++ {
@@ -610,9 +610,32 @@ func famVer(tr *Trace, id *int, seed int64, tier string) int {
 		evs = append(evs, M{"ev": "endcase"})
 		tr.Emit(j.id, evs)
 	})
+	cnt := len(jobs)
+	// the version is expanded from the environment BEFORE it is split
+	for _, pr := range []struct{ ver, pre, meta string }{{"${VER}", "", ""}, {"v${VER}", "", ""}, {"2.0.0-beta.2", "${EMPTYV}", ""}, {"2.0.0-beta.2+b1", "", "${EMPTYV}"},
+		{"${VER}", "${PRE}", ""}, {"1.2.3", "${PRE}", "m${EMPTYV}"}} {
+		for _, env := range []map[string]string{{"VER": "1.2.3-rc1+b5", "PRE": "alpha"}, {"VER": "4.5", "PRE": ""}, {}} {
+			doc := map[string]any{"name": "probe", "arch": "amd64", "version": pr.ver}
+			if pr.pre != "" {
+				doc["prerelease"] = pr.pre
+			}
+			if pr.meta != "" {
+				doc["version_metadata"] = pr.meta
+			}
+			cfg, _, err := parseDoc(doc, env)
+			*id++
+			cnt++
+			ev := M{"ev": "expandsplit", "version": pr.ver, "prerelease": pr.pre, "metadata": pr.meta, "env": envM(env), "err": "", "obs": M{"version": "", "pre": "", "meta": ""}}
+			if err != nil {
+				ev["err"] = safeStr(err.Error())
+			} else {
+				ev["obs"] = M{"version": cfg.Version, "pre": cfg.Prerelease, "meta": cfg.VersionMetadata}
+			}
+			tr.Emit(*id, []M{{"ev": "case", "id": *id, "fam": "expandsplit"}, ev, {"ev": "endcase"}})
+		}
+	}
 	// numeric ordering of major.minor.patch
 	nums := []int{0, 1, 2, 9, 10, 11, 100}
-	cnt := len(jobs)
 	for _, pos := range []int{0, 1, 2} {
 		for i := 0; i+1 < len(nums); i++ {
 			for _, extra := range []verTuple{{}, {Pre: "rc1"}, {Release: "3", Epoch: "2"}, {Meta: "git5"}} {
@@ -755,6 +778,23 @@ func famParse(tr *Trace, id *int) int {
 						emit(ev)
 					}
 				}
+			}
+		}
+	}
+	// (b2) an entry that opts in but has no source (dir, ghost): its destination is expanded all the same
+	for _, ty := range []string{"dir", "ghost"} {
+		for _, env := range envs {
+			for _, opt := range []string{"true", "false"} {
+				doc := minimalDoc()
+				doc["contents"] = []any{map[string]any{"dst": "/opt/${VAR}/d", "type": ty, "expand": opt == "true"}}
+				cfg, _, err := parseDoc(doc, env)
+				ev := M{"ev": "expand", "path": "contents.[].dst", "kind": "string", "raw": "/opt/${VAR}/d", "rawtag": "nosrc-" + ty, "env": envM(env), "opt": opt, "obs": []any{}, "err": ""}
+				if err != nil {
+					ev["err"] = safeStr(err.Error())
+				} else if len(cfg.Contents) == 1 {
+					ev["obs"] = []any{safeStr(cfg.Contents[0].Destination)}
+				}
+				emit(ev)
 			}
 		}
 	}
